@@ -8,6 +8,7 @@ import (
 	"fmt"
 	"os"
 	"sync"
+	"sync/atomic"
 	"testing"
 
 	"github.com/attestantio/dirk/rules"
@@ -449,6 +450,11 @@ func (s *Stack) Close() {
 // client name and source address ("" = absent).
 func Ctx(client string, ip string) context.Context {
 	ctx := context.Background()
+	if baseCtxN.Load() > 0 {
+		if b, ok := baseCtx.Load(GoID()); ok {
+			ctx = b.(context.Context)
+		}
+	}
 	if client != "" {
 		ctx = context.WithValue(ctx, &interceptors.ClientName{}, client)
 	}
@@ -457,6 +463,25 @@ func Ctx(client string, ip string) context.Context {
 	}
 
 	return ctx
+}
+
+var (
+	baseCtx  sync.Map // goroutine id -> context.Context
+	baseCtxN atomic.Int64
+)
+
+// SetBaseCtx makes every context that Ctx builds on the calling goroutine derive from base (for
+// example a cancellable context, as gRPC hands to a handler whose client may go away); the returned
+// function removes the registration.
+func SetBaseCtx(base context.Context) func() {
+	id := GoID()
+	baseCtx.Store(id, base)
+	baseCtxN.Add(1)
+
+	return func() {
+		baseCtx.Delete(id)
+		baseCtxN.Add(-1)
+	}
 }
 
 // Creds builds service-level credentials.
